@@ -1,9 +1,14 @@
 (* Property C05 - surface syntax does not change meaning.  Theorems only.
    PARTIAL on the separator clause (white space / line breaks / comments
-   BETWEEN tokens): it is false in general (finding C05-path-swallows-comment)
-   and is covered by correspondence and hunter, see DESIGN.md 7/C05. *)
+   BETWEEN tokens): proved is that a separator standing at a token boundary is
+   consumed as exactly one ignored token by every scanner (section "separators"
+   below); NOT proved is that the token before it ends where the separator
+   begins - false in general (finding C05-path-swallows-comment: PATH and the
+   regex terminals can run into a following comment) - and that later tokens do
+   not depend on the line counter except in their positions.  Those parts are
+   covered by correspondence and hunter, see DESIGN.md 7/C05. *)
 From MF Require Import Lib.Base Lib.Regex Model.GrammarTypes Model.Lexer Model.LR Model.Case Model.Transformer
-  Proofs.C05 Proofs.C02 Proofs.GrammarFacts Gen.Grammar.
+  Proofs.C05 Proofs.C02 Proofs.GrammarFacts Proofs.SepFacts Proofs.SepSkip Gen.Grammar.
 
 (* ---- letter case of keywords *)
 
@@ -70,6 +75,77 @@ Theorem C05_ignored_tokens_invisible :
                           end.
 Proof. exact next_token_not_ignored. Qed.
 Print Assumptions C05_ignored_tokens_invisible.
+
+(* ---- separators *)
+
+(* [U]+[F] in every scanner of the generated grammar (root lexer and all
+   contextual lexers, [F] readiness computed by the kernel) and for every
+   comment body in which no "*/" begins: the whole comment is one ignored token
+   (recorded for the comments pipeline when comments are requested) *)
+Theorem C05_c_comment_is_one_ignored_token :
+  forall wc lx fuel st body rest',
+    In lx (all_lexers the_grammar) ->
+    lazy_ok body = true ->
+    ls_rest st = (47 :: 42 :: body ++ [42; 47]) ++ rest' ->
+    (length (ls_rest st) <= fuel)%nat ->
+    next_token the_grammar wc lx (S fuel) st =
+    next_token the_grammar wc lx fuel (skip_state the_grammar wc lx TM_CCOMMENT st (47 :: 42 :: body ++ [42; 47]) rest').
+Proof. exact ccomment_skipped. Qed.
+Print Assumptions C05_c_comment_is_one_ignored_token.
+
+(* a # comment runs to the end of its line, whatever it contains *)
+Theorem C05_hash_comment_is_one_ignored_token :
+  forall wc lx fuel st line rest',
+    In lx (all_lexers the_grammar) ->
+    forallb (fun c => negb (c =? 10)) line = true ->
+    match rest' with [] => True | c :: _ => c = 10 end ->
+    ls_rest st = (35 :: line) ++ rest' ->
+    (length (ls_rest st) <= fuel)%nat ->
+    next_token the_grammar wc lx (S fuel) st =
+    next_token the_grammar wc lx fuel (skip_state the_grammar wc lx TM_COMMENT st (35 :: line) rest').
+Proof. exact comment_skipped. Qed.
+Print Assumptions C05_hash_comment_is_one_ignored_token.
+
+(* a maximal run of blanks (space, tab, form feed) is skipped - except that a
+   run starting with a space is part of the item inside the braces of a list
+   expression, the one scanner that knows UNQUOTED_STRING_SPACE *)
+Theorem C05_blanks_are_skipped :
+  forall wc lx fuel st c run rest',
+    In lx (all_lexers the_grammar) ->
+    (c = 32 -> has_uss lx = false) ->
+    forallb is_blank (c :: run) = true ->
+    match rest' with [] => True | c' :: _ => is_blank c' = false end ->
+    ls_rest st = (c :: run) ++ rest' ->
+    (length (ls_rest st) <= fuel)%nat ->
+    next_token the_grammar wc lx (S fuel) st =
+    next_token the_grammar wc lx fuel (skip_state the_grammar wc lx TM_WS st (c :: run) rest').
+Proof. exact blanks_skipped. Qed.
+Print Assumptions C05_blanks_are_skipped.
+
+Theorem C05_blank_sensitive_scanners :
+  length (filter has_uss (g_lexers the_grammar)) = 1%nat /\ has_uss (g_root_lexer the_grammar) = true.
+Proof. exact uss_scanners. Qed.
+Print Assumptions C05_blank_sensitive_scanners.
+
+(* a maximal run of line breaks (LF, CR in any mixture) is skipped *)
+Theorem C05_line_breaks_are_skipped :
+  forall wc lx fuel st c run rest',
+    In lx (all_lexers the_grammar) ->
+    forallb is_break (c :: run) = true ->
+    match rest' with [] => True | c' :: _ => is_break c' = false end ->
+    ls_rest st = (c :: run) ++ rest' ->
+    (length (ls_rest st) <= fuel)%nat ->
+    next_token the_grammar wc lx (S fuel) st =
+    next_token the_grammar wc lx fuel (skip_state the_grammar wc lx TM__NL st (c :: run) rest').
+Proof. exact breaks_skipped. Qed.
+Print Assumptions C05_line_breaks_are_skipped.
+
+(* non-vacuity: comment bodies with interior asterisks, slashes, quotes, hashes *)
+Example C05_comment_bodies :
+  lazy_ok (Str " width = lanes * 1.5 ") = true /\ lazy_ok (Str "* doc *") = true /\
+  lazy_ok (Str " a / b # ""q"" ") = true /\ lazy_ok (Str "") = true /\ lazy_ok (Str "/") = true /\
+  lazy_ok (Str " x */ y ") = false.
+Proof. vm_compute. repeat split; reflexivity. Qed.
 
 (* ---- quote choice *)
 
